@@ -430,6 +430,10 @@ def run_request(acc, job):
 
     targets.append({'name': 'n5', 'password': 'pw', 'auth_token': 'tok',
                     'nested': {'secret': 's3', 'token': 't'}})
+    # the key that held the opaque object in n3 now holds real values (the
+    # targets are used in this order, in one process)
+    targets.append({'name': 'n6', 'obj': 'real-value', 'k': {'x': [1]}})
+    targets.append({'name': 'n7', 'obj': {'id': 7, 'tags': ['a']}})
     import logging
 
     class H(logging.Handler):
